@@ -127,7 +127,7 @@ theorem primsOK_noDebit (P : Params) (h : Nat) (A : Addr → Prop) : PrimsOK P h
   subBal a t v ha := subBal_noDebit P A a t v ha
   insertRate _ _ := guarded_keep (·.addrs) (noDebit_keep A) (fun _ => rfl)
   insertHistBatch _ := guarded_keep (·.addrs) (noDebit_keep A) (fun _ => rfl)
-  insertHistTx _ := guarded_keep (·.addrs) (noDebit_keep A) (fun _ => rfl)
+  insertHistTx _ _ := guarded_keep (·.addrs) (noDebit_keep A) (fun _ => rfl)
   insertLookup _ := guarded_keep (·.addrs) (noDebit_keep A) (fun s => by split <;> rfl)
   setExecuted _ _ := guarded_keep (·.addrs) (noDebit_keep A) (fun _ => rfl)
   setConvertedAmount _ _ _ := guarded_keep (·.addrs) (noDebit_keep A) (fun _ => rfl)
@@ -155,6 +155,7 @@ def Debitable (P : Params) (c : DB) (b : Block) (a : Addr) : Prop :=
 theorem authOK_debitable (P : Params) (c : DB) (b : Block) :
     AuthOK P (noDebitOutside (Debitable P c b)) (Debitable P c b) c b where
   log _ := guarded_keep (·.addrs) (noDebit_keep _) (fun _ => rfl)
+  comps := histComps_of_prims (primsOK_noDebit P b.height (Debitable P c b)) (fun _ => trivial)
   txs es hes e he hv t ht := Or.inl ⟨es, hes, e, he, hv, t, ht, rfl⟩
   held row hrow hv t ht := Or.inr (Or.inl ⟨row, hrow, hv, t, ht, rfl⟩)
   mint hb := Or.inr (Or.inr (Or.inl ⟨hb, rfl⟩))
